@@ -70,18 +70,38 @@ def new_engine(run=None, timeout_ms=20000):
     E = Eng(SRC, run=run, timeout_ms=timeout_ms)
     install_rdms(E)
     E.inline = set(INLINE)
+    if run is not None:
+        run.__dict__.setdefault('_engines', []).append(E)       # every engine of a run reports its trusted base
     return E
 
 
 def finish_engine(E, run):
     """record trusted base of an engine-A run in the evidence"""
     from vf.pyvc import lib
-    for name in sorted(E.used_lib):
-        run.trust('assumed library contract: ' + lib.DOC.get(name, name))
-    for name in sorted(E.used_uninterp):
-        run.trust('uninterpreted pure function (not verified here): ' + name)
-    for name in sorted(E.used_contracts):
-        run.trust('callee contract used at call sites: ' + name)
+    engines = list(run.__dict__.get('_engines', []))
+    if E not in engines:
+        engines.append(E)
+    used_lib, used_un, used_con, inlined = set(), set(), set(), set()
+    for e in engines:
+        used_lib |= e.used_lib
+        used_un |= e.used_uninterp
+        used_con |= e.used_contracts
+    seen = run.__dict__.setdefault('_trusted_seen', set())
+    for name in sorted(used_lib):
+        t = 'assumed library contract: ' + lib.DOC.get(name, name)
+        if t not in seen:
+            seen.add(t)
+            run.trust(t)
+    for name in sorted(used_un):
+        t = 'uninterpreted pure function (not verified here): ' + name
+        if t not in seen:
+            seen.add(t)
+            run.trust(t)
+    for name in sorted(used_con):
+        t = 'callee contract used at call sites: ' + name
+        if t not in seen:
+            seen.add(t)
+            run.trust(t)
 
 
 def report_a_failures(run, fails, bounded=()):
